@@ -3,6 +3,7 @@ package c17
 
 import (
 	"errors"
+	"sync/atomic"
 	"fmt"
 	"math"
 	"sort"
@@ -36,6 +37,11 @@ type Case struct {
 	Ops       []Op      `json:"ops"`
 	VSpecs    [][]pbt.F `json:"vspecs"` // strictly increasing finite value specs (generated)
 	DSpecs    [][]int64 `json:"dspecs"` // strictly increasing duration specs in ns (generated)
+	// ViaConfig: how the reporter is built. 0: NewReporter(Options) with the harness callback;
+	// 1: Configuration.NewReporter with the harness callback in ConfigurationOptions; 2: Configuration
+	// with onError "none" (errors swallowed: conflicts must not panic at all); 3: Configuration with
+	// the default onError (registration errors panic with the error value - the only panics allowed)
+	ViaConfig int `json:"viaConfig,omitempty"`
 }
 
 // pools the generated specs are drawn from (then de-duplicated and sorted): the fixed specs of the
@@ -107,6 +113,9 @@ var conflicts = []string{"counter-then-gauge", "gauge-then-counter", "timer-then
 
 func gen(t *rapid.T) Case {
 	c := Case{TimerHist: rapid.Bool().Draw(t, "timerHist"), PanicCB: rapid.IntRange(0, 2).Draw(t, "panicCB") == 0}
+	if rapid.IntRange(0, 3).Draw(t, "viaConfig?") == 0 {
+		c.ViaConfig = rapid.IntRange(1, 3).Draw(t, "viaConfig")
+	}
 	ns := rapid.IntRange(1, 4).Draw(t, "nscopes")
 	for i := 0; i < ns; i++ {
 		c.Scopes = append(c.Scopes, pbt.M{"a": pbt.S(rapid.SampledFrom([]string{"x", "y", "z"}).Draw(t, "va")), "b": pbt.S(rapid.SampledFrom([]string{"1", "2"}).Draw(t, "vb"))})
@@ -172,6 +181,10 @@ func gen(t *rapid.T) Case {
 
 var sentinel = errors.New("sentinel from OnRegisterError")
 
+// handlerSeq makes the HTTP handler path of every Configuration-built reporter unique (the
+// default serve mux panics on a second registration of one path).
+var handlerSeq atomic.Int64
+
 type series struct {
 	counter float64
 	gauge   uint64
@@ -212,12 +225,45 @@ func run(c Case) (pbt.Outcome, error) {
 	if c.TimerHist {
 		tt = tprom.HistogramTimerType
 	}
-	rep := tprom.NewReporter(tprom.Options{Registerer: reg, DefaultTimerType: tt, OnRegisterError: func(err error) {
+	cb := func(err error) {
 		cbErrs = append(cbErrs, err)
 		if c.PanicCB {
 			panic(sentinel)
 		}
-	}})
+	}
+	var rep tprom.Reporter
+	if c.ViaConfig == 0 {
+		rep = tprom.NewReporter(tprom.Options{Registerer: reg, DefaultTimerType: tt, OnRegisterError: cb})
+	} else {
+		cfg := tprom.Configuration{HandlerPath: fmt.Sprintf("/verif-c17-%d", handlerSeq.Add(1)), TimerType: "summary"}
+		if c.TimerHist {
+			cfg.TimerType = "histogram"
+		}
+		co := tprom.ConfigurationOptions{Registry: reg}
+		switch c.ViaConfig {
+		case 1:
+			co.OnError = cb
+		case 2:
+			cfg.OnError = "none"
+		}
+		var err error
+		if rep, err = cfg.NewReporter(co); err != nil {
+			return out, fmt.Errorf("harness: Configuration.NewReporter: %v", err)
+		}
+	}
+	// with onError "none" nothing may panic; with the default onError a registration error panics
+	// with the error itself
+	allowedPanic := func(p interface{}) bool {
+		switch c.ViaConfig {
+		case 2:
+			return false
+		case 3:
+			_, isErr := p.(error)
+			return isErr
+		}
+		return p == interface{}(sentinel) && c.PanicCB
+	}
+	observable := c.ViaConfig <= 1 // the harness callback sees the errors
 	so := tprom.DefaultSanitizerOpts
 	root, _ := tally.NewRootScope(tally.ScopeOptions{CachedReporter: rep, Separator: tprom.DefaultSeparator, SanitizeOptions: &so, OmitCardinalityMetrics: true}, 0)
 	scopes := make([]tally.Scope, len(c.Scopes))
@@ -358,14 +404,14 @@ func run(c Case) (pbt.Outcome, error) {
 				// a registration Prometheus accepted: nothing to check (e.g. the timer flavour made it legal)
 				_ = before
 			}
-			if p != nil && p == interface{}(sentinel) && len(cbErrs) == before {
+			if observable && p != nil && p == interface{}(sentinel) && len(cbErrs) == before {
 				errs.Addf("op %d: sentinel panic without a callback call?!", oi)
 			}
 			// every flavour except histogram-flavoured timers sharing a name with a histogram is a
 			// registration Prometheus rejects (same name, other type or other label names): it must
 			// reach the error callback
 			expectReject := !(c.TimerHist && (op.What == "timer-then-histogram" || op.What == "histogram-then-timer"))
-			if expectReject && len(cbErrs) == before {
+			if observable && expectReject && len(cbErrs) == before {
 				errs.Addf("op %d (%s, timerHist=%v): the second registration is one Prometheus rejects, but the error callback was not called", oi, op.What, c.TimerHist)
 			}
 			// the same request made on the reporter directly: whenever the callback returns the
@@ -402,13 +448,13 @@ func run(c Case) (pbt.Outcome, error) {
 						h.DurationBucket(time.Second, 2*time.Second).ReportSamples(1)
 					}
 				}
-			}); pd != nil && !(pd == interface{}(sentinel) && c.PanicCB) {
+			}); pd != nil && !allowedPanic(pd) {
 				errs.Addf("op %d (%s): the same request made on the reporter directly panicked: %v", oi, op.What, pd)
 			}
 			// a rejected second registration (same kind, other tag keys) must leave the first,
 			// legitimate family exposed with what was recorded on it
-			if strings.HasSuffix(op.What, "-other-tagkeys") && (p == nil || p == interface{}(sentinel)) {
-				if p2 := try(func() { tally.VerifReportOnce(root) }); p2 != nil && p2 != interface{}(sentinel) {
+			if strings.HasSuffix(op.What, "-other-tagkeys") && (p == nil || allowedPanic(p)) {
+				if p2 := try(func() { tally.VerifReportOnce(root) }); p2 != nil && !allowedPanic(p2) {
 					errs.Addf("op %d: report pass after the conflict panicked: %v", oi, p2)
 				}
 				fams, _ := reg.Gather()
@@ -448,13 +494,13 @@ func run(c Case) (pbt.Outcome, error) {
 			}
 		}
 		if p != nil {
-			if p == interface{}(sentinel) && c.PanicCB {
+			if allowedPanic(p) {
 				continue
 			}
-			errs.Addf("op %d (%s %s): panic %v", oi, op.K, op.What, p)
+			errs.Addf("op %d (%s %s, viaConfig=%d): panic %v", oi, op.K, op.What, c.ViaConfig, p)
 		}
 	}
-	if p := try(func() { tally.VerifReportOnce(root) }); p != nil && !(p == interface{}(sentinel) && c.PanicCB) {
+	if p := try(func() { tally.VerifReportOnce(root) }); p != nil && !allowedPanic(p) {
 		errs.Addf("final report pass panicked: %v", p)
 	}
 	fams, err := reg.Gather()
@@ -570,7 +616,7 @@ func run(c Case) (pbt.Outcome, error) {
 func TestC17(t *testing.T) {
 	pbt.Main(t, pbt.Prop[Case]{
 		ID: "C17", Name: "prometheus",
-		Rule: "rapid-generated histories (1..30 ops) on a tally root whose cached reporter is the Prometheus reporter on a fresh registry (separator '_', Prometheus sanitizer; timers as summaries or histograms; error callback returning or panicking with a sentinel): counters (non-negative deltas), gauges (hostile float bits), timers, value and duration histograms with GENERATED strictly increasing finite specs (1..8 bounds from pools of decimals, huge/tiny magnitudes, one-ulp neighbours; durations ns..11 days incl. millisecond-granular bounds above 1 s) and samples on / one ulp or ns above and below / around the bounds, 1..4 tagged scopes with the same tag keys and different values, report passes, pre-registration of counter/gauge/timer families through the reporter's Register* API with the tag keys in either order (before or after first use; values must be exposed as without it), and conflict programs (a name reused for another kind: counter/gauge, timer/histogram, counter/timer, histogram/counter; or with other tag keys) whose result is then used through every method. Oracle after a final pass: Gather() shows counter == sum, gauge == last update (bits), cumulative bucket counts == #samples <= bound with bounds == spec (durations in seconds) and total == #samples, timer count == #values, one family per name and one series per tag-value combination; conflicts: the rejected registration reaches the error callback, the same request made on the reporter directly returns a non-nil usable metric, no panic other than the sentinel, at any point, and a rejected registration with other tag keys leaves the first, accepted family exposed with its values. Non-trivial: a sample equal to a bound, or >=2 series in a family, or a cross-kind/tag-key conflict. Distinct: FNV-64 of the case JSON.",
+		Rule: "rapid-generated histories (1..30 ops) on a tally root whose cached reporter is the Prometheus reporter on a fresh registry (separator '_', Prometheus sanitizer; timers as summaries or histograms; error callback returning or panicking with a sentinel; in a quarter of the cases the reporter is built through Configuration.NewReporter - harness callback, onError \"none\" where nothing may panic, or the default onError where only the registration error itself may be the panic value): counters (non-negative deltas), gauges (hostile float bits), timers, value and duration histograms with GENERATED strictly increasing finite specs (1..8 bounds from pools of decimals, huge/tiny magnitudes, one-ulp neighbours; durations ns..11 days incl. millisecond-granular bounds above 1 s) and samples on / one ulp or ns above and below / around the bounds, 1..4 tagged scopes with the same tag keys and different values, report passes, pre-registration of counter/gauge/timer families through the reporter's Register* API with the tag keys in either order (before or after first use; values must be exposed as without it), and conflict programs (a name reused for another kind: counter/gauge, timer/histogram, counter/timer, histogram/counter; or with other tag keys) whose result is then used through every method. Oracle after a final pass: Gather() shows counter == sum, gauge == last update (bits), cumulative bucket counts == #samples <= bound with bounds == spec (durations in seconds) and total == #samples, timer count == #values, one family per name and one series per tag-value combination; conflicts: the rejected registration reaches the error callback, the same request made on the reporter directly returns a non-nil usable metric, no panic other than the sentinel, at any point, and a rejected registration with other tag keys leaves the first, accepted family exposed with its values. Non-trivial: a sample equal to a bound, or >=2 series in a family, or a cross-kind/tag-key conflict. Distinct: FNV-64 of the case JSON.",
 		Gen:  gen, Run: run, HangAfter: 20 * time.Second,
 	})
 }
